@@ -255,6 +255,97 @@ def swallow_rules(facts, rep, reach):
                                     "%s inspects the error of %s and lets some variants pass, but that callee performs I/O on %s: a genuine stream "
                                     "error can be swallowed and the call reports success with missing data" % (f.path, callee.path, external))
     rep.floor(rule, 2, "two call sites of parse_extra_field")
+    ok &= errarm_rules(facts, rep, reach)
+    return ok
+
+
+REVIEWED_ERRARM = {
+    # "<fn>|<callee>" -> reason
+    "<read::ZipFile<'a>_as_std::ops::Drop>::drop|read":
+        "Drop cannot report: a failing drain ends the loop (F6 repair); the next header read on the shared stream then fails or hits EOF -- an error, never wrong data",
+    "write::<impl_std::ops::Drop_for_write::zip_writer::ZipWriter<W>>::drop|finalize":
+        "Drop cannot report: the implicit finish on drop prints the error to stderr (documented); callers who need the error call finish()",
+}
+
+
+def ret_alts_all(f, ex):
+    out = []
+    for b in f.exits():
+        e = norm(ex.local(0, (b, None)))
+        out.extend(alts(e))
+    return out
+
+
+def errarm_rules(facts, rep, reach):
+    """`if let Ok(x) = io_call() { .. }` / a match whose Err arm carries on: the failure of an I/O-performing call is discarded and the
+    function continues as if nothing had happened.  Every direct test of an I/O result's discriminant must send its Err side to an
+    error return (the `?` form does so by construction and is not inspected here)."""
+    rule = "C11-ERRARM"
+    ok = True
+    n = 0
+    for f in facts.fns:
+        if f.path not in reach or f.kind == "Closure":
+            continue
+        ex = Ex(f)
+        tests = []
+        for sb, b in enumerate(f.blocks):
+            tt = b["term"]
+            if b["cleanup"] or not tt or tt["k"] != "switch":
+                continue
+            d = norm(ex.operand(tt["discr"], (sb, None)))
+            if not (d[0] == "discr" and d[1][0] == "call" and len(d[1]) > 4):
+                continue
+            tests.append((sb, tt, d))
+        for sb, tt, d in tests:
+            # later re-tests of the same result (drop elaboration after a partial move) decide nothing new
+            if any(o_sb != sb and o_d[1] == d[1] and f.dominates(o_sb, sb) for o_sb, _, o_d in tests):
+                continue
+            cb = d[1][4]
+            ct = f.term(cb) if isinstance(cb, int) and cb < len(f.blocks) else None
+            if not ct or ct["k"] != "call" or ct["dest"]["p"] or not IO_RESULT.match(f.locals[ct["dest"]["l"]]["ty"]):
+                continue
+            if callee_matches(ct, r"Try::branch$|FromResidual"):
+                continue
+            # does the callee (transitively) perform I/O on something the caller gave it?  in-memory-only helpers are exempt
+            n += 1
+            tmap = dict((v_, b_) for v_, b_ in tt["targets"])
+            errt = tmap.get(1, tt["otherwise"])
+            # the Err side must reach a `return` carrying an Err without first rejoining the Ok side
+            okt = tmap.get(0, tt["otherwise"])
+            ok_reach = f.reach_from_inclusive(okt, avoid={sb})
+            err_only = f.reach_from_inclusive(errt, avoid={sb}) - ok_reach
+            # blocks reachable from the Err side that are ALSO reachable from the Ok side = the computation carries on after the error
+            rejoin = (f.reach_from_inclusive(errt, avoid={sb}) & ok_reach)
+            # (shared epilogue blocks -- drops, storage markers, the return itself -- do no work)
+            rejoin = {x for x in rejoin if not f.blocks[x]["cleanup"] and f.term(x) and f.term(x)["k"] == "call"}
+            # the tested result itself is what the function returns: the error travels with it
+            rets = ret_alts_all(f, ex)
+            returned = any(r_ == d[1] for r_ in rets)
+            # a common `return` block with the Err value already built is the usual lowering: accept when the Err side builds an Err/propagates
+            builds_err = any(st_["k"] == "assign" and st_["rv"]["k"] == "agg" and st_["rv"].get("variant") == "Err" for x in err_only for st_ in f.blocks[x]["stmts"]) or \
+                any(f.term(x) and f.term(x)["k"] == "call" and callee_matches(f.term(x), r"FromResidual::from_residual$|Result::<T, E>::map_err|convert::From::from$") for x in err_only)
+            # error inspected further (variant match handled by C11-SWALLOW)
+            inspected = any(f.term(x) and f.term(x)["k"] == "switch" and norm(ex.operand(f.term(x)["discr"], (x, None)))[0] == "discr" and
+                            norm(ex.operand(f.term(x)["discr"], (x, None)))[1][0] == "err" for x in err_only | {errt})
+            callee = (ct.get("callee") or "?")
+            key = "%s|%s" % (f.path, re.sub(r"<[^<>]*>", "", re.sub(r"<[^<>]*>", "", callee)).split("::")[-1])
+            if inspected:
+                rep.ok(rule, key, where(f, tt["span"]), "the error value is inspected (see C11-SWALLOW)")
+                continue
+            # ... and nothing else happens on the way: after the failure only the error is built/converted and handed up
+            carries_on = [f.term(x)["callee"] for x in err_only if not f.blocks[x]["cleanup"] and f.term(x) and f.term(x)["k"] == "call" and
+                          not callee_matches(f.term(x), r"FromResidual::from_residual$|convert::(From::from|Into::into)$|Result::<T, E>::map_err$|io::Error::new$|"
+                                                        r"fmt::|format|ZipError|drop_in_place|mem::drop$|ToString::to_string$|string::String")]
+            good = (builds_err and not rejoin and not carries_on) or returned
+            if good:
+                rep.ok(rule, key, where(f, tt["span"]), "the Err side returns an error" if not returned else "the tested result is returned to the caller unchanged")
+            elif re.sub(r"\s+", "_", key) in REVIEWED_ERRARM:
+                rep.reviewed(rule, key, where(f, tt["span"]), "reviewed: " + REVIEWED_ERRARM[re.sub(r"\s+", "_", key)])
+            else:
+                ok = False
+                rep.violation(rule, key, where(f, tt["span"]), "the Err result of %s is tested and then discarded: on failure the function carries on "
+                              "(%s) instead of returning the error" % (callee, "rejoins the success path" if rejoin else ("goes on to call %s" % carries_on[0].split("::")[-1]) if carries_on else "no error is built on that side"))
+    rep.count("direct_result_tests", n)
     return ok
 
 
@@ -393,4 +484,8 @@ def run(ctx, rep):
     errpanic_rules(facts, rep, reach)
     pos_rules(facts, rep, reach)
     poison_rules(facts, rep)
+    # "no panic, then or on any later call including finish": the writer's typestate invariants are what keep its assertions
+    # (get_plain / unwrap / files.last().unwrap()) unreachable after a failed call
+    from rules.C12 import ts_rules
+    ts_rules(facts, rep)               # reported as C11/C12-TS
     rep.assume("a failed seek/read/write leaves the stream position unspecified unless stated otherwise in a reviewed entry")
